@@ -169,7 +169,7 @@ def generate(rng, k):
             # two analyses in one interpreter: each has its own store
             for op in ops:
                 if op["op"] == "run":
-                    op["second_analysis"] = True
+                    op["second_analysis"] = rng.choice([True, "same_ws_cut", "same_ws_cut"]) if op.get("lang") == "python" else True
                     op["fault"] = None
                     op["history"] = None
         return ops
